@@ -506,6 +506,10 @@ type Features struct {
 	// UnknownBoolEqFalse: the predicate tests `f = false` for a boolean field f that no row of the data set has a value
 	// for (the field does not exist in the measurement)
 	UnknownBoolEqFalse bool   `json:"unknown_bool_eq_false"`
+	// PointBeforeTmin / PointAfterTmax: some series passing the tag tests holds a stored point before the lower / after the
+	// upper time bound of the statement (then the bound of its first chunk is not the time of its first returned row)
+	PointBeforeTmin bool `json:"point_before_tmin"`
+	PointAfterTmax  bool `json:"point_after_tmax"`
 	HasTie             bool   `json:"has_tie"` // plain selection: two rows of one group share a timestamp
 	Layout             string `json:"layout"`  // inorder | ooo (how the data set was written)
 }
@@ -589,6 +593,20 @@ func features(ds *Dataset, q *Query) Features {
 		f.Layout = "inorder"
 	}
 	f.UnknownBoolEqFalse = unknownBoolEqFalse(q.Pred, ds)
+	for i := range ds.Series {
+		sr := &ds.Series[i]
+		if !evalTagPart(q.Pred, sr) {
+			continue
+		}
+		for ri := range sr.Rows {
+			if q.HasTmin && sr.Rows[ri].T < q.Tmin {
+				f.PointBeforeTmin = true
+			}
+			if q.HasTmax && sr.Rows[ri].T > q.Tmax {
+				f.PointAfterTmax = true
+			}
+		}
+	}
 	if q.Kind == "agg" {
 		lo, hi := q.bounds()
 		for i := range ds.Series {
